@@ -99,7 +99,7 @@ def run(chk, repo):
         if isinstance(n, ast.Assign) and unparse(n.targets[0]) == 'end_j':
             ej = it.ev(q, n.value)
     ok = sj == Aff.sym('fragment.location.start') and ej == Aff.sym('fragment.location.end')
-    w0 = any(norm_stmt(s) == 'start = int(self.fragments[0].location.start)' for s in wr.node.body)
+    w0 = [norm_stmt(s) for s in sorted((n for n in walk_no_nested(wr.node) if isinstance(n, ast.Assign) and unparse(n.targets[0]) == 'start'), key=lambda n: n.lineno)] == ['start = int(self.fragments[0].location.start)', 'start = str(start)']
     chk.ob('C13.a', 'reader(start + OFFSET, + LENGTH) inverts writer(fragment - start, end - start)', rd.where, ok and w0,
            f"reader rebuilds [{sj!r}, {ej!r}) from writer offset {off!r} / length {ln!r} (anchor = first fragment start: {w0})",
            key='circ.io::offset-algebra', fn=rd.qual)
